@@ -1,0 +1,12 @@
+//go:build verif
+
+// Contracts of this package for the deductive verifier in /verif (vcgo).
+// Comment-only; compiled only with -tags verif.
+
+package status
+
+// A status handler registers its routes on the group it is given and nowhere
+// else, so they run behind whatever that group's chain holds (C09).
+//@ iface (Handler).Register
+//@   modifies-all $gOpenRoute $gRoutes
+//@   ensures[behind-group] grpAuth[group] && !old(gOpenRoute) ==> !gOpenRoute
